@@ -32,7 +32,7 @@ from ..engine.resolver import FuncNode, Program, walk_no_nested
 from ..engine.sympath import SymUnsupported, sym_block
 from ..engine.util import find_calls, method_call, u
 from ._c17_util import (FIELDS, GROUP, Side, agg_term, bind_target, elem_of, fold_loops, index_fields, is_name,
-                        loop_passes, name, prepared, record_fields, returns_of, set_elem, simple_call, strip_doc)
+                        loop_passes, name, prepared, record_fields, returns_of, seg, set_elem, simple_call, splice, strip_doc)
 
 MC = "timeseries.battery_pool._metric_calculator"
 BMM = "microgrid._power_distributing._component_managers._battery_manager"
@@ -544,6 +544,90 @@ CONTROLS = [
 ]
 
 
+_CMP = {ast.Lt: "<", ast.Gt: ">", ast.LtE: "<=", ast.GtE: ">="}
+
+
+def structural_controls(prog: Program) -> list[tuple[str, str, str, str, str]]:  # noqa: C901
+    """The six controls located by structure in the tree under analysis (whole source -> patched
+    source), so that the same defects are injected into any surface form of the anchors; a site that
+    cannot be located falls back to the textual control (reported as skipped when it does not apply)."""
+    built: dict[str, tuple[str, str]] = {}
+
+    def add(nm: str, module: str, edits: list[tuple[ast.AST, str]]) -> None:
+        src = prog.module(module).source
+        if not edits:
+            return
+        try:
+            new = splice(src, edits)
+            ast.parse(new)
+        except (SyntaxError, AnalysisError):
+            return
+        if new != src:
+            built[nm] = (src, new)
+
+    def attr_args(c: ast.AST, funcs: tuple[str, ...], attr: str) -> list[ast.AST] | None:
+        a = simple_call(c, funcs, 2)
+        return a if a is not None and any(isinstance(x, ast.Attribute) and x.attr == attr for x in a) else None
+
+    def chains(cls_qual: str, wanted: set[str], strict: bool) -> list[ast.Compare]:
+        """two-operator comparison chains over `.a`/`.b` attribute operands in a class's methods"""
+        out = []
+        for m in prog.cls(cls_qual).methods.values():
+            for c in ast.walk(m.node):
+                if isinstance(c, ast.Compare) and len(c.ops) == 2 and all(type(o) in _CMP for o in c.ops) \
+                        and all((type(o) in (ast.Lt, ast.Gt)) == strict for o in c.ops) \
+                        and {x.attr for x in [c.left] + c.comparators if isinstance(x, ast.Attribute)} == wanted:
+                    out.append(c)
+        return out
+
+    msrc, bsrc = prog.module(MC).source, prog.module(BMM).source
+    calc = prog.cls(f"{MC}:PowerBoundsCalculator")
+    # 1. the advertised exclusion upper bound takes min instead of max per group
+    mx = [c for m in calc.methods.values() for c in ast.walk(m.node) if attr_args(c, ("max",), "exclusion_upper")]
+    if len(mx) == 1:
+        add(CONTROLS[0][0], MC, [(mx[0].func, "min")])  # type: ignore[attr-defined]
+    # 2. adjustable requests: the strict zone test reaches up to the inclusion bound
+    zone = chains(f"{BMM}:BatteryManager", {"exclusion_lower", "exclusion_upper"}, strict=True)
+    if len(zone) == 1:
+        ops = [x for x in [zone[0].left] + zone[0].comparators if isinstance(x, ast.Attribute) and x.attr == "exclusion_upper"]
+        add(CONTROLS[1][0], BMM, [(ops[0], f"{seg(bsrc, ops[0].value)}.inclusion_upper")])
+    # 3. two ids of the battery metric table swapped
+    init = calc.methods.get("__init__")
+    if init is not None:
+        tables = [n for n in ast.walk(init.node) if isinstance(n, ast.List) and len(n.elts) == 4
+                  and all(u(e).split(".")[-1].startswith("POWER_") for e in n.elts)]
+        if len(tables) == 1:
+            e1, e2 = tables[0].elts[1], tables[0].elts[2]
+            add(CONTROLS[2][0], MC, [(e1, seg(msrc, e2)), (e2, seg(msrc, e1))])
+    # 4. the enforced inclusion upper bound ignores the inverters
+    gb = prog.cls(f"{BMM}:BatteryManager")
+    mn = [(c, a) for m in gb.methods.values() for c in ast.walk(m.node)
+          for a in [attr_args(c, ("min",), "inclusion_upper")] if a]
+    if len(mn) == 1:
+        keep = [x for x in mn[0][1] if isinstance(x, ast.Attribute) and x.attr == "inclusion_upper"]
+        add(CONTROLS[3][0], BMM, [(mn[0][0], seg(bsrc, keep[0]))])
+    # 5. the advertised side iterates a list of groups (one entry per working battery)
+    sets = [n for m in calc.methods.values() for n in ast.walk(m.node) if isinstance(n, ast.SetComp)
+            and isinstance(n.elt, ast.Subscript) and u(n.elt.value).endswith("._bat_bats_map") and len(n.generators) == 1]
+    if len(sets) == 1:
+        g = sets[0].generators[0]
+        add(CONTROLS[4][0], MC, [(sets[0], f"[{seg(msrc, sets[0].elt)} for {seg(msrc, g.target)} in "
+                                           f"sorted({seg(msrc, g.iter)})]")])
+    # 6. non-adjustable requests: the inclusion upper bound itself is refused
+    rng = chains(f"{BMM}:BatteryManager", {"exclusion_upper", "inclusion_upper"}, strict=False)
+    if len(rng) == 1:
+        c = rng[0]
+        operands = [c.left] + list(c.comparators)
+        parts = [seg(bsrc, operands[0])]
+        for k, op in enumerate(c.ops):
+            sym = _CMP[type(op)]
+            if any(isinstance(x, ast.Attribute) and x.attr == "inclusion_upper" for x in operands[k:k + 2]):
+                sym = sym[0]
+            parts += [sym, seg(bsrc, operands[k + 1])]
+        add(CONTROLS[5][0], BMM, [(c, " ".join(parts))])
+    return [(nm, module, *built.get(nm, (old, new)), rule) for nm, module, old, new, rule in CONTROLS]
+
+
 def run_rules(run: Run, prog: Program) -> None:
     check_agg(run, prog)
     check_acc(run, prog)
@@ -559,7 +643,7 @@ def check(run: Run, prog: Program, tier: str) -> str:
     run.floor("C17.ACC", 30)
     from ..engine.controls import run_controls
 
-    run_controls(run, CONTROLS, run_rules, tier)
+    run_controls(run, structural_controls(prog), run_rules, tier, base_prog=prog)
     run.assume("inverter exclusion bounds satisfy lower <= 0 <= upper; lattice lemmas Σ_g max(a,b) >= "
                "max(Σa, Σb), Σ_g min(a,b) <= min(Σa, Σb), min_i x_i <= Σ_i x_i for x >= 0")
     run.undecided("equality of the *data* the two sides see at run time (the property says 'for the same "
